@@ -204,6 +204,16 @@ def fov_from_config(shape, size, size2):
     return FieldOfView.fromConfig(RectangularFieldOfViewConfig(azimuth_angle=size, elevation_angle=size2))
 
 
+def inplace_answer(f, p, b, phi):
+    """the rotated question asked with the SAME two array objects as the question before it, their contents overwritten in place
+    (a sensor keeps its boresight array and updates it): the answer depends on the vectors, not on which objects carry them"""
+    pa, ba = v6(p), v6(b)
+    f.inFieldOfView(pa, ba)
+    pa[:] = v6(rotz(p, phi))
+    ba[:] = v6(rotz(b, phi))
+    return bool(f.inFieldOfView(pa, ba))
+
+
 def impl_case(c):
     from resonaate.physics import sensor_utils as su
     from resonaate.physics.measurements import getAzimuth, getElevation
@@ -220,6 +230,7 @@ def impl_case(c):
             "in": bool(f.inFieldOfView(v6(p), v6(b))), "self": bool(f.inFieldOfView(v6(p), v6(p))),
             "rot": bool(f.inFieldOfView(v6(rotz(p, c["phi"])), v6(rotz(b, c["phi"])))),
             "scaled": bool(f.inFieldOfView(v6([2 * x for x in p]), v6([0.5 * x for x in b]))),
+            "inplace": inplace_answer(f, p, b, c["phi"]),
         }
     if op == "rect":
         f = (fov_from_config("rectangular", c["size"], c["size2"]) if c.get("via_config")
@@ -229,6 +240,7 @@ def impl_case(c):
         return {
             "in": bool(f.inFieldOfView(v6(p), v6(b))), "self": bool(f.inFieldOfView(v6(p), v6(p))),
             "rot": bool(f.inFieldOfView(v6(pr), v6(br))),
+            "inplace": inplace_answer(f, p, b, c["phi"]),
             "azel": [float(getAzimuth(v6(p))), float(getElevation(v6(p))), float(getAzimuth(v6(b))), float(getElevation(v6(b)))],
         }
     if op == "azmask":
@@ -329,7 +341,7 @@ def oracle(run: Run, c, impl):
         else:
             want = ang <= half
             run.count(f"conic:{want}")
-            for k in ("in", "rot", "scaled"):
+            for k in ("in", "rot", "scaled", "inplace"):
                 if i[k] != want:
                     fails.append((f"conic:{k}", f"angular offset {ang:.6f} rad, half-angle {half:.6f}: inFieldOfView[{k}]={i[k]}"))
         if not i["self"]:
@@ -345,7 +357,7 @@ def oracle(run: Run, c, impl):
         else:
             want = daz <= ha and abs(elp - elb) <= he
             run.count(f"rect:{want}:{'seam' if c['seam'] else 'interior'}")
-            for k in ("in", "rot"):
+            for k in ("in", "rot", "inplace"):
                 if i[k] != want:
                     fails.append((f"rect:{k}", f"azimuth offset {daz:.6f} (half {ha:.6f}), elevation offset {abs(elp - elb):.6f} (half {he:.6f}): inFieldOfView[{k}]={i[k]}"))
         if not i["self"]:
